@@ -36,6 +36,7 @@ type Obligation struct {
 	Desc    string
 	Func    string
 	Group   string // vacuity.backedge: the loop the guard belongs to
+	block   *ssa.BasicBlock // block of the verified function in which the obligation arises (nil: unknown)
 	nlines  int
 	reach   string
 	goal    string
@@ -128,6 +129,7 @@ type VC struct {
 	callCount   map[string]int
 	defers      []*ssa.Defer
 	deferReach  map[*ssa.Defer]string
+	mainBlock   *ssa.BasicBlock // the block of vc.fn being executed (also while a callee is executed in place)
 	closArgs    []*closureInfo // closures passed as arguments of the call being executed (see applySpec)
 	curBlock    *ssa.BasicBlock
 	curState    *State
@@ -234,6 +236,11 @@ func (vc *VC) oblige(kind, label, reach, goal, desc string) *Obligation {
 		fmt.Fprintf(os.Stderr, "DEBUG empty reach: %s block=%v inl=%v\n%s\n", name, vc.curBlock, vc.inl != nil, debug.Stack())
 	}
 	o := &Obligation{Name: name, Kind: kind, Desc: desc, Func: vc.funcName, nlines: len(vc.lines), reach: reach, goal: goal, vc: vc, expect: "unsat"}
+	if vc.curBlock != nil && vc.fn != nil && vc.curBlock.Parent() == vc.fn {
+		o.block = vc.curBlock
+	} else {
+		o.block = vc.mainBlock
+	}
 	if !vc.discovery {
 		vc.obligations = append(vc.obligations, o)
 	}
@@ -251,7 +258,30 @@ func (o *Obligation) script(withModel bool) string {
 	if o.linesOv != nil {
 		lines = o.linesOv
 	}
+	// relevance filter: an assumption guarded by the reachability of a block from which the obligation's block cannot be
+	// reached says nothing about this obligation (blocks are executed in an order in which, e.g., the code after a loop
+	// comes before the loop's back edge); dropping assumptions can only make a proof harder, never unsound
+	var irrelevant []string
+	if o.block != nil && o.vc.fn != nil && o.block.Parent() == o.vc.fn {
+		for b, name := range o.vc.reach {
+			if b.Parent() == o.vc.fn && b != o.block && name != "" && name != "true" && strings.HasPrefix(name, "reach.") && !blockReaches(b, o.block) {
+				irrelevant = append(irrelevant, "(assert (=> "+name+" ")
+			}
+		}
+	}
 	for _, l := range lines {
+		skip := false
+		if len(irrelevant) > 0 && strings.HasPrefix(l, "(assert (=> reach.") {
+			for _, pre := range irrelevant {
+				if strings.HasPrefix(l, pre) {
+					skip = true
+					break
+				}
+			}
+		}
+		if skip {
+			continue
+		}
 		sb.WriteString(l)
 		sb.WriteString("\n")
 	}
@@ -1076,6 +1106,9 @@ func (vc *VC) execBlocks(order []*ssa.BasicBlock, entrySt *State) {
 		}
 		vc.active = vc.loopContaining(b)
 		vc.curBlock = b
+		if vc.fn != nil && b.Parent() == vc.fn {
+			vc.mainBlock = b
+		}
 		if lp, ok := vc.loopOf[b]; ok {
 			st = vc.enterLoop(lp, b, st, edges)
 			vc.curBlock = b // (the discovery pass inside enterLoop moves it)
